@@ -96,7 +96,7 @@ def identity_rules(rep, ctx, mod, prefix=""):
                             return True
             return False
         rep.check(rid2, step_ok(s), "count update = count + bytes where memcpy(buf + count, ..., bytes) (or a decoder run into buf + count with max_read bytes of room)",
-                  fn.defn(s).where() if fn.defn(s) else where, describe(fn, s), function=fn.cname, obj="count-step")
+                  fn.defn(s).where() if fn.defn(s) is not None and not fn.defn(s).is_param else where, describe(fn, s), function=fn.cname, obj="count-step")
     # a run of the decoder that delivers nothing ends the stream for good: the sticky failure flag is set on every path from there
     rid3 = rep.rule(prefix + "R1c", "every run of the decoder (dtype->read) whose result is 0 is followed by decoder_failed = 1 on every path to the return", 1)
     runs = [c for c in fn.insts() if c.op == "call" and not c.callee and M.match(("load", ("field", "LHADecoderType", "read", ANY)), c.calleev, {}) is not None]
